@@ -173,7 +173,12 @@ class CExec:
             if e.type in ("int", "long int", "long long int", "unsigned int"):
                 return int(e.value.rstrip("uUlL"), 0)
             if e.type in ("double", "float"):
-                return m.falg.const(sym.frac_of_float(float(e.value)))
+                fv = float(e.value.rstrip("fFlL"))
+                if fv != fv or fv in (float("inf"), float("-inf")):
+                    from .kse import Violation
+
+                    raise Violation("ill-formed", ("C floating constant outside the range of double", e.value))
+                return m.falg.const(sym.frac_of_float(fv))
             raise HarnessError(f"constant type {e.type}")
         if t is c_ast.StructRef:
             base = self.ev(e.name)
